@@ -219,7 +219,12 @@ def run(ctx):
     ctx.ob("R3.clip-choice", CIG, "write_alignment_to_cigar", "clip_op = HARD_CLIP if hard_clip else SOFT_CLIP",
            has_code(wr, "clip_op = CigarOp.HARD_CLIP if hard_clip else CigarOp.SOFT_CLIP"), "the clip operation follows the hard_clip option", wr.lineno)
     ctx.ob("R3.match-refinement", CIG, "write_alignment_to_cigar", "EQUAL/DIFFERENT only on MATCH columns",
-           has_code(wr, "operations[equal_mask & match_mask] = CigarOp.EQUAL") and has_code(wr, "operations[~equal_mask & match_mask] = CigarOp.DIFFERENT")
+           (has_code(wr, "operations[equal_mask & match_mask] = CigarOp.EQUAL") and has_code(wr, "operations[~equal_mask & match_mask] = CigarOp.DIFFERENT")
+            # (the same two stores as one: only the M columns are assigned, each from its own comparison)
+            or (sum(1 for st_ in ast.walk(wr) if isinstance(st_, ast.Assign) and len(st_.targets) == 1 and same_expr(st_.targets[0], "operations[match_mask]")
+                    and same_expr(st_.value, "np.where(equal_mask[match_mask], CigarOp.EQUAL, CigarOp.DIFFERENT)")) == 1
+                and not any(isinstance(st_, (ast.Assign, ast.AugAssign)) and "CigarOp.DIFFERENT" in ast.unparse(st_) and not same_expr(
+                    (st_.targets[0] if isinstance(st_, ast.Assign) else st_.target), "operations[match_mask]") for st_ in ast.walk(wr))))
            and has_code(wr, "match_mask = operations == CigarOp.MATCH"), "'='/'X' refine M columns only", wr.lineno)
     ctx.ob("R3.intron", CIG, "write_alignment_to_cigar", "introns only inside deletions, by reference position",
            has_code(wr, "intron_mask[(ref_trace >= start) & (ref_trace < stop)] = True") and has_code(wr, "np.any(intron_mask & ~deletion_mask)"),
